@@ -563,27 +563,27 @@ Definition spec_ConfigParam4 : tlayout :=
    _ OracleBridgeParams = ConfigParam 71;  _ OracleBridgeParams = ConfigParam 72;
    _ OracleBridgeParams = ConfigParam 73;
    _ JettonBridgeParams = ConfigParam 79;  _ JettonBridgeParams = ConfigParam 81;
-   _ JettonBridgeParams = ConfigParam 82; *)
-Definition spec_ConfigParam8 : tlayout := same_as "GlobalVersion".
-Definition spec_ConfigParam11 : tlayout := same_as "ConfigVotingSetup".
-Definition spec_ConfigParam13 : tlayout := same_as "ComplaintPricing".
-Definition spec_ConfigParam14 : tlayout := same_as "BlockCreateFees".
+   _ JettonBridgeParams = ConfigParam 82;
+   The classes ConfigParamN(T) inherit T's deserialize (`return super().deserialize(cell_slice)`): the same tags
+   and fields as T, and the object built is of class ConfigParamN (cls(...) in the parent's classmethod). *)
+Definition as_class (cls : string) (L : tlayout) : tlayout :=
+  mkLayout (t_mode L)
+    (map (fun c => mkCtor (c_tag c) (match c_ret c with RObj _ consts => RObj cls consts | r => r end) (c_items c))
+         (t_ctors L))
+    (t_snap L) (t_special L).
+Definition spec_ConfigParam8 : tlayout := as_class "ConfigParam8" spec_GlobalVersion.
+Definition spec_ConfigParam11 : tlayout := as_class "ConfigParam11" spec_ConfigVotingSetup.
+Definition spec_ConfigParam13 : tlayout := as_class "ConfigParam13" spec_ComplaintPricing.
+Definition spec_ConfigParam14 : tlayout := as_class "ConfigParam14" spec_BlockCreateFees.
+Definition spec_ConfigParam22 : tlayout := as_class "ConfigParam22" spec_BlockLimits.
+Definition spec_ConfigParam23 : tlayout := as_class "ConfigParam23" spec_BlockLimits.
+Definition spec_ConfigParam24 : tlayout := as_class "ConfigParam24" spec_MsgForwardPrices.
+Definition spec_ConfigParam25 : tlayout := as_class "ConfigParam25" spec_MsgForwardPrices.
+Definition spec_ConfigParam28 : tlayout := as_class "ConfigParam28" spec_CatchainConfig.
+(* GasLimitsPrices and ConsensusConfig are not traced (no tree for ConfigParam 20, 21, 29): not in the table *)
 Definition spec_ConfigParam20 : tlayout := same_as "GasLimitsPrices".
 Definition spec_ConfigParam21 : tlayout := same_as "GasLimitsPrices".
-Definition spec_ConfigParam22 : tlayout := same_as "BlockLimits".
-Definition spec_ConfigParam23 : tlayout := same_as "BlockLimits".
-Definition spec_ConfigParam24 : tlayout := same_as "MsgForwardPrices".
-Definition spec_ConfigParam25 : tlayout := same_as "MsgForwardPrices".
-Definition spec_ConfigParam28 : tlayout := same_as "CatchainConfig".
 Definition spec_ConfigParam29 : tlayout := same_as "ConsensusConfig".
-Definition spec_ConfigParam44 : tlayout := same_as "SuspendedAddressList".
-Definition spec_ConfigParam71 : tlayout := same_as "OracleBridgeParams".
-Definition spec_ConfigParam72 : tlayout := same_as "OracleBridgeParams".
-Definition spec_ConfigParam73 : tlayout := same_as "OracleBridgeParams".
-Definition spec_ConfigParam79 : tlayout := same_as "JettonBridgeParams".
-Definition spec_ConfigParam81 : tlayout := same_as "JettonBridgeParams".
-Definition spec_ConfigParam82 : tlayout := same_as "JettonBridgeParams".
-
 (* _ workchains:(HashmapE 32 WorkchainDescr) = ConfigParam 12; *)
 Definition spec_ConfigParam12 : tlayout :=
   record "ConfigParam12" [ "workchains" ::: FDict 32 (ty "WorkchainDescr") ].
@@ -626,6 +626,16 @@ Definition spec_JettonBridgeParams : tlayout :=
           INamedHex "oracles_address" "oracles_address_hex" 32;
           "oracles" ::: FDict 256 (FUint 256); "state_flags" ::: FUint 8;
           "prices" ::: ^"JettonBridgePrices"; "external_chain_address" ::: FBytes 32 ] ].
+
+(* ConfigParam 44, 71-73, 79, 81, 82 (see as_class above).  ConfigParam 79 / 81 / 82 inherit the FINDING of
+   JettonBridgeParams (external_chain_address of jetton_bridge_params_v1 is not read): not in the table. *)
+Definition spec_ConfigParam44 : tlayout := as_class "ConfigParam44" spec_SuspendedAddressList.
+Definition spec_ConfigParam71 : tlayout := as_class "ConfigParam71" spec_OracleBridgeParams.
+Definition spec_ConfigParam72 : tlayout := as_class "ConfigParam72" spec_OracleBridgeParams.
+Definition spec_ConfigParam73 : tlayout := as_class "ConfigParam73" spec_OracleBridgeParams.
+Definition spec_ConfigParam79 : tlayout := as_class "ConfigParam79" spec_JettonBridgeParams.
+Definition spec_ConfigParam81 : tlayout := as_class "ConfigParam81" spec_JettonBridgeParams.
+Definition spec_ConfigParam82 : tlayout := as_class "ConfigParam82" spec_JettonBridgeParams.
 
 (* wfmt_ext#0 min_addr_len:(## 12) max_addr_len:(## 12) addr_len_step:(## 12)
      { min_addr_len >= 64 } { min_addr_len <= max_addr_len } { max_addr_len <= 1023 }
@@ -853,7 +863,9 @@ Definition spec_InMsg : tlayout :=
    NOT in the table (findings: the generated tree differs from the compilation of the faithful layout):
    - spec_WorkchainFormat_0, spec_WorkchainFormat_1: the library accepts both tags #0 and #1 for either
      constructor (`if tag not in (0, 1)` in WorkchainFormat.deserialize);
-   - spec_JettonBridgeParams: external_chain_address:bits256 of jetton_bridge_params_v1 is not read;
+   - spec_JettonBridgeParams, and with it spec_ConfigParam79 / 81 / 82: external_chain_address:bits256 of
+     jetton_bridge_params_v1 is not read;
+   - spec_ConfigParam20 / 21 / 29: their parent types are not traced;
    - spec_ShardAccounts (tree equal; the library does not read the top-level extra of a HashmapAugE). *)
 Definition spec_table : stable :=
   [ ("AccStatusChange", [], spec_AccStatusChange);
@@ -936,22 +948,16 @@ Definition spec_table : stable :=
     ("ConfigParam12", [], spec_ConfigParam12);
     ("ConfigParam13", [], spec_ConfigParam13);
     ("ConfigParam14", [], spec_ConfigParam14);
-    ("ConfigParam20", [], spec_ConfigParam20);
-    ("ConfigParam21", [], spec_ConfigParam21);
     ("ConfigParam22", [], spec_ConfigParam22);
     ("ConfigParam23", [], spec_ConfigParam23);
     ("ConfigParam24", [], spec_ConfigParam24);
     ("ConfigParam25", [], spec_ConfigParam25);
     ("ConfigParam28", [], spec_ConfigParam28);
-    ("ConfigParam29", [], spec_ConfigParam29);
     ("ConfigParam31", [], spec_ConfigParam31);
     ("ConfigParam44", [], spec_ConfigParam44);
     ("ConfigParam71", [], spec_ConfigParam71);
     ("ConfigParam72", [], spec_ConfigParam72);
     ("ConfigParam73", [], spec_ConfigParam73);
-    ("ConfigParam79", [], spec_ConfigParam79);
-    ("ConfigParam81", [], spec_ConfigParam81);
-    ("ConfigParam82", [], spec_ConfigParam82);
     ("SuspendedAddressList", [], spec_SuspendedAddressList);
     ("OracleBridgeParams", [], spec_OracleBridgeParams);
     ("WalletV3Data", [], spec_WalletV3Data);
